@@ -17,6 +17,11 @@ _tus = [
     tu("c16_morph1", _MOR, "asan", extra=NONULL + ["-DC16_MPART=1"], deps=_DEPS),
     tu("c16_morph2", _MOR, "asan", extra=NONULL + ["-DC16_MPART=2"], deps=_DEPS),
     tu("c16_morph3", _MOR, "asan", extra=NONULL + ["-DC16_MPART=3"], deps=_DEPS),
+    # differing source/destination channel orders, compared per colour
+    tu("c16_morph4", _MOR, "asan", extra=NONULL + ["-DC16_MPART=4"], deps=_DEPS),
+    tu("c16_morph5", _MOR, "asan", extra=NONULL + ["-DC16_MPART=5"], deps=_DEPS),
+    tu("c16_median_mixed", _MOR, "asan", extra=NONULL + ["-DC16_MPART=6"], deps=_DEPS),
+    tu("c16_otsu_mixed", _THR, "asan", extra=NONULL + ["-DC16_PART=3"], deps=_DEPS),
     tu("c16_probe_f32_binary", "harness/c16_probe_f32.cpp", "asan", extra=["-DC16_PROBE=0"], probe="threshold_binary.f32"),
     tu("c16_probe_f32_truncate", "harness/c16_probe_f32.cpp", "asan", extra=["-DC16_PROBE=1"], probe="threshold_truncate.f32"),
 ]
@@ -28,6 +33,10 @@ _runs = [
     run("c16_morph1", shards=4, min_cases={"quick": 199, "thorough": 577}),
     run("c16_morph2", shards=4, min_cases={"quick": 104, "thorough": 290}),
     run("c16_morph3", shards=4, min_cases={"quick": 199, "thorough": 577}),
+    run("c16_morph4", shards=4, min_cases={"quick": 104, "thorough": 290}),
+    run("c16_morph5", shards=4, min_cases={"quick": 104, "thorough": 290}),
+    run("c16_median_mixed", shards=4, min_cases={"quick": 196, "thorough": 576}),
+    run("c16_otsu_mixed", shards=4, min_cases={"quick": 420, "thorough": 1800}, max_restarts=600),
 ]
 if ENABLE_F32:
     _tus.append(tu("c16_thr_f32", _THR, "asan", extra=NONULL + ["-DC16_PART=2"], deps=_DEPS))
@@ -70,8 +79,12 @@ CFG = dict(
            "threshold_optimal: gray/rgb x uint8, int8, uint16, int16",
            "dilate/erode/opening/closing/morphological_gradient: gray8, rgb8, gray8s, gray16, gray16s, gray32f (no gradient: does "
            "not instantiate) with detail::kernel_2d<float> structuring elements",
-           "median_filter: gray8, rgb8, gray8s, gray16, gray16s, gray32f"],
-    assumptions=["preconditions respected: equal source/destination dimensions, odd median kernel sizes, non-empty sources for "
+           "median_filter: gray8, rgb8, gray8s, gray16, gray16s, gray32f",
+           "differing source/destination channel orders, judged per colour: rgb8->bgr8, bgr8->rgb8, rgba8->abgr8, planar rgb8->bgr8 "
+           "for dilate/erode/opening/closing/gradient, median_filter and threshold_optimal (+ rgb16->bgr16 for Otsu)"],
+    assumptions=["channels of source and destination pair by colour, not by memory position, when their layouts differ "
+                 "(the functions only require compatible colour spaces)",
+                 "preconditions respected: equal source/destination dimensions, odd median kernel sizes, non-empty sources for "
                  "median (edge replication), centred symmetric (transpose- and point-symmetric) 0/1 structuring elements",
                  "the centre pixel always takes part in dilate/erode, as the code documents",
                  "deduced max of threshold_binary = std::numeric_limits<channel>::max()",
